@@ -453,6 +453,46 @@ theorem peer_type_from_real_as (c : LocalCfg) (s s' : PeerState) (o : Open)
 example : (stateChange { (default : LocalCfg) with localAs := 70000 } default
     { (default : Open) with myAs := 23456, params := [.caps [.as4 70000]] }).stInternal = true := by decide
 
+/-- **the session's AS and peer type come from the NEIGHBOUR's effective configuration and the OPEN**,
+    however the configuration is given (peer-as configured or 0 = learnt from the OPEN; local-as
+    = the global AS, a per-neighbour override, or the confederation identifier): with the
+    configuration layer's defaults applied, the AS our OPEN announces is the neighbour's effective
+    local AS, the session is internal iff the AS in the peer's OPEN EQUALS THE AS OUR OPEN ANNOUNCED —
+    the global AS plays no role beyond the defaults — and isEBGP is its negation. -/
+theorem session_as_from_neighbor_config (g : GlobalCfg) (cfgLocalAs : Nat) (c : LocalCfg) (s s' : PeerState) (o : Open)
+    (h : negotiate (applyDefaults g cfgLocalAs c) s o = .ok s') :
+    let c' := applyDefaults g cfgLocalAs c
+    getASN (buildOpen c') = (if cfgLocalAs = 0 then getLocalAsForPeer g c.peerAs else cfgLocalAs) ∧
+    s'.stPeerAs = getASN o ∧
+    (s'.stInternal = true ↔ getASN o = getASN (buildOpen c')) ∧
+    (s'.isEBGP = true ↔ getASN o ≠ getASN (buildOpen c')) ∧
+    (s'.isConfed = true ↔ getASN o ∈ g.members) := by
+  intro c'
+  have hc : c'.cfgInternal = (c'.peerAs == c'.localAs) := rfl
+  have hopen : getASN (buildOpen c') = c'.localAs := by
+    rw [real_as, buildOpen_caps]
+    have : (capsFromConfig c').filterMap as4Val = [c'.localAs] := by
+      unfold capsFromConfig
+      simp only [List.filterMap_append]
+      rw [filterMap_as4Val_nil (swCaps c') (fun x hx => by rw [swCaps_code c' x hx]; decide),
+        filterMap_as4Val_nil (mpCaps c') (fun x hx => by rw [mpCaps_code c' x hx]; decide),
+        filterMap_as4Val_nil (grCaps c') (fun x hx => by rcases grCaps_code c' x hx with h | h <;> rw [h] <;> decide),
+        filterMap_as4Val_nil (extNhCaps c') (fun x hx => by rw [extNhCaps_code c' x hx]; decide),
+        filterMap_as4Val_nil (capAddPathFromConfig c') (fun x hx => by rw [capAddPath_code c' x hx]; decide)]
+      simp [as4Val, List.filterMap_cons]
+    rw [this]; rfl
+  obtain ⟨h1, h2, h3, h4⟩ := peer_type_from_real_as c' s s' o hc h
+  rw [hopen]
+  exact ⟨rfl, h1, h2, h3, h4⟩
+
+example : (stateChange (applyDefaults ⟨65000, false, 0, []⟩ 65100 default) default
+      { (default : Open) with myAs := 65100 }).stInternal = true ∧
+    (stateChange (applyDefaults ⟨65000, false, 0, []⟩ 65100 default) default
+      { (default : Open) with myAs := 65000 }).isEBGP = true ∧
+    (applyDefaults ⟨65000, true, 64999, [65001]⟩ 0 { (default : LocalCfg) with peerAs := 70000 }).localAs = 64999 ∧
+    (applyDefaults ⟨65000, true, 64999, [65001]⟩ 0 { (default : LocalCfg) with peerAs := 65001 }).localAs = 65000 := by
+  decide
+
 /-! ## a re-established session does not inherit anything -/
 
 /-- **nothing of an earlier session survives**: every negotiated parameter of this property (and the
